@@ -54,6 +54,14 @@ fn runs(bytes: &[u8]) -> Result<Vec<[u64; 3]>, String> {
     Ok(out)
 }
 
+/// A second file appender, on a file of its own, that the encoder of the first one appends to from inside its own
+/// encode call (an audit line written by a Display implementation, say): an append like any other - acknowledged
+/// means in its file -, whatever the thread is in the middle of.  Its hook events are kept out of the trace.
+static AUDIT: Mutex<Option<Arc<dyn Append>>> = Mutex::new(None);
+thread_local! {
+    static NESTED: RefCell<bool> = RefCell::new(false);
+}
+
 #[derive(Debug)]
 struct ShapeEncoder {
     events: Events,
@@ -70,6 +78,15 @@ impl Encode for ShapeEncoder {
             }
             if n == u64::MAX {
                 break;
+            }
+            if k == 1 && i % 3 == 0 {
+                let audit = AUDIT.lock().unwrap().clone();
+                if let Some(a) = audit {
+                    NESTED.with(|x| *x.borrow_mut() = true);
+                    let r = a.append(&log::Record::builder().level(log::Level::Info).args(format_args!("audit {}.{}", t, i)).build());
+                    NESTED.with(|x| *x.borrow_mut() = false);
+                    self.events.lock().unwrap().push(json!({"e": "audit", "t": t, "i": i, "ok": r.is_ok()}));
+                }
             }
             let mut chunk = vec![];
             for _ in 0..n {
@@ -143,7 +160,12 @@ fn scenario(rng: &mut Rng, append_mode: bool, events: &Events, problems: &mut Ve
     let ev = events.clone();
     let p2 = path.clone();
     let amp = Arc::new(Mutex::new(Rng::new(amp_seed)));
+    let audit_path = scratch.path().join("audit.log");
+    *AUDIT.lock().unwrap() = Some(Arc::new(FileAppender::builder().encoder(Box::new(log4rs::encode::pattern::PatternEncoder::new("{m}{n}"))).build(&audit_path).unwrap()));
     log4rs::verif::set_global_callback(Some(Arc::new(move |name: &str, _arg: u64| {
+        if NESTED.with(|x| *x.borrow()) {
+            return Ok(()); // (the audit appender's own steps)
+        }
         let t = TID.with(|x| x.borrow().0);
         let read = || match std::fs::read(&p2).map_err(|e| e.to_string()).and_then(|b| runs(&b)) {
             Ok(r) => json!(r),
@@ -241,6 +263,30 @@ fn scenario(rng: &mut Rng, append_mode: bool, events: &Events, problems: &mut Ve
         closed(events);
     }
     log4rs::verif::set_global_callback(None);
+    // every audit line that was acknowledged is in the audit file, once, whole, and per thread in order
+    *AUDIT.lock().unwrap() = None;
+    let want: Vec<String> = {
+        let ev = events.lock().unwrap();
+        let start = ev.iter().rposition(|e| e["e"] == "reset").unwrap_or(0);
+        ev[start..].iter().filter(|e| e["e"] == "audit" && e["ok"] == true).map(|e| format!("audit {}.{}", e["t"], e["i"])).collect()
+    };
+    let text = std::fs::read_to_string(&audit_path).unwrap_or_default();
+    let mut got: Vec<String> = text.lines().map(|l| l.to_string()).collect();
+    let mut want_sorted = want.clone();
+    want_sorted.sort();
+    let per_thread_in_order = (1..=3u64).all(|t| {
+        let pre = format!("audit {}.", t);
+        let g: Vec<&String> = got.iter().filter(|l| l.starts_with(&pre)).collect();
+        let w: Vec<&String> = want.iter().filter(|l| l.starts_with(&pre)).collect();
+        g == w
+    });
+    got.sort();
+    if got != want_sorted || !per_thread_in_order || !text.ends_with('\n') && !text.is_empty() {
+        problems.push(json!({"what": "records appended to a second appender from inside the first one's encode call are not all in its file",
+                             "acknowledged": want.len(), "in_the_file": got.len(), "missing": want_sorted.iter().filter(|l| !got.contains(l)).take(5).collect::<Vec<_>>()}));
+    }
+    // (the trace specification does not know the audit events)
+    events.lock().unwrap().retain(|e| e["e"] != "audit");
 }
 
 /// `filetrace <out.ndjson> <append|truncate> <runs> <seed>`
